@@ -2567,8 +2567,8 @@ class Qube(object):
 
         if recursive:
             for (key,deriv) in self._derivs_.items():
-                obj.insert_deriv(key, deriv.remask(mask, recursive=False,
-                                                         check=False))
+                obj.insert_deriv(key, deriv.remask_or(mask, recursive=False,
+                                                            check=False))
 
         return obj
 
